@@ -225,6 +225,8 @@ def equal(exp, got, d: Diff | None = None, path="$", numeric_mode=False) -> Diff
         return d
     # ---- numpy scalars: by numeric value only (may come back as python scalars)
     if isinstance(exp, np.generic) and not isinstance(exp, np.ndarray):
+        if isinstance(got, np.ndarray) and got.ndim == 0:
+            got = got[()]  # a 0-d array carries the same single numeric value
         if isinstance(got, (np.ndarray, list, tuple, dict, set, str)) or got is None or not _num_eq(
                 exp, got):
             d.add("npscalar_value", path, f"{exp!r}({type(exp).__name__})->{got!r}")
@@ -356,6 +358,17 @@ def equal(exp, got, d: Diff | None = None, path="$", numeric_mode=False) -> Diff
 def _set_eq(a, b):
     if len(a) != len(b):
         return False
+    if a and all(_is_num(x) for x in a):
+        # all-numeric sets travel through the ndarray fast path: by numeric value
+        if not all(_is_num(x) for x in b):
+            return False
+        rest = list(b)
+        for x in a:
+            hit = next((i for i, y in enumerate(rest) if _num_eq(x, y)), None)
+            if hit is None:
+                return False
+            rest.pop(hit)
+        return True
     key = lambda x: (type(x).__name__, repr(x))
     return sorted(map(key, a)) == sorted(map(key, b))
 
@@ -429,7 +442,10 @@ def gen_nd(rng, opts, big=False):
 
 def gen_npscalar(rng):
     dt = rng.pick(["float32", "float64", "float16", "int8", "int32", "int64", "uint8", "uint64",
-                   "bool"])
+                   "bool", "complex64", "complex128"])
+    if dt.startswith("complex"):
+        return {"k": "npscalar", "dtype": dt, "v": [rng.pick(["0x1.8p+1", "0x0.0p+0", "nan"]),
+                                                     rng.pick(["-0x1.0p+0", "0x1.0p-3", "inf"])]}
     if dt == "bool":
         return {"k": "npscalar", "dtype": dt, "v": rng.chance(0.5)}
     if dt.startswith("float"):
@@ -478,8 +494,12 @@ def gen_value(rng, opts, depth, budget):
             elif mode == "bool":
                 items.append({"k": "bool", "v": rng.chance(0.5)})
             elif mode == "np":
-                items.append(gen_npscalar(rng) if rng.chance(0.6) else {"k": "int", "v": rng.pick(
-                    [0, 1, 5])})
+                it = gen_npscalar(rng) if rng.chance(0.6) else {"k": "int", "v": rng.pick([0, 1, 5])}
+                if it.get("dtype", "").startswith("complex"):
+                    it = {"k": "npscalar", "dtype": "float32", "v": "0x1.8p+1"}
+                if it.get("dtype") == "uint64" and it["v"] > 2 ** 63 - 1:
+                    it["v"] = 5  # the claim covers ints within int64 inside numeric sequences
+                items.append(it)
             else:
                 items.append(rng.pick([{"k": "int", "v": rng.pick([0, 1, -3, 2 ** 40])},
                                        {"k": "float", "v": gen_float(rng)},
